@@ -60,6 +60,11 @@ def histRun (f : Fmt) (ops : List String) : Option String := do
   let rs ← go {} ops
   pure ("#".intercalate rs)
 
+def subOf : String → Option Sub
+  | "output" => some .output | "mkdir" => some .mkdir | "verify" => some .verify | "template" => some .template | _ => none
+def stageOf : String → Option CliStage
+  | "usage" => some .usage | "opts" => some .opts | "open" => some .open_ | "ok" => some (.lib true) | "fail" => some (.lib false) | _ => none
+
 def handle (words : List String) : Option String :=
   match words with
   | ["scan", doc] => do
@@ -155,6 +160,10 @@ def handle (words : List String) : Option String :=
       let (fs, e) := wasmOutputFormatted inp
       pure ("f=" ++ (if fs.isEmpty then "_" else String.join (fs.map showF)) ++ " e=" ++ showErr e)
     | _ => none
+  | ["cli", sub, dry, stage] => do
+    let sub ← subOf sub
+    let st ← stageOf stage
+    pure (toString (exitStatus sub (dry == "1") st))
   | ["hist", fmt, ops] => do
     let f ← fmtOf (← unhexList fmt)
     histRun f (ops.splitOn ";")
